@@ -376,6 +376,15 @@ func appendSlice(expr ast.Expr, lhsV reflect.Value, rhsV reflect.Value) (reflect
 			if rhsT == interfaceType {
 				value = value.Elem()
 			}
+			if !value.IsValid() {
+				// a nil element: the zero value where the element type has a nil, otherwise no conversion
+				switch lhsT.Kind() {
+				case reflect.Ptr, reflect.Map, reflect.Slice, reflect.Func, reflect.Chan, reflect.Interface:
+					lhsV = reflect.Append(lhsV, reflect.Zero(lhsT))
+					continue
+				}
+				return nilValue, newStringError(expr, "invalid type conversion")
+			}
 			if lhsT == value.Type() {
 				lhsV = reflect.Append(lhsV, value)
 			} else if value.Type().ConvertibleTo(lhsT) {
